@@ -1,6 +1,6 @@
 """C03 - command lists: left to right, short-circuit, status plumbing."""
 from .. import flow, mir
-from ..mir import FactWalker, const_int, const_str, last_seg, render
+from ..mir import FactWalker, const_int, const_str, last_seg, render, strip_sites
 
 EXPLANATION = ("C03: the list evaluation loop of run_command_line is decided structurally: single loop "
                "exit (iterator exhaustion), the run/skip decision as a truth table over {sep is &&, sep is ||, "
@@ -22,6 +22,9 @@ def run(ctx):
                       "which is the status of the last command result")
     ctx.rule("R03-8", "the status && / || test is a real one: main resets an inherited SIGCHLD disposition before it runs "
                       "anything (the analysis of C02 R02-8; bin crate)")
+    ctx.rule("R03-9", "a quoted region of the list splitter ends only at the character that opened it: every place where "
+                      "line_to_cmds clears its quote / operator state is dominated by `state == current character`, so "
+                      "`;`, `&&`, `||` behind a different quote character inside a quoted word stay text")
     ctx.rule("R03-7", "line_to_cmds recognises `;`, `&&`, `||` with a look-ahead in the same index space as its cursor: the "
                       "counter of chars().enumerate() is never used as a byte offset, so non-ASCII text before an operator "
                       "cannot hide it")
@@ -30,6 +33,7 @@ def run(ctx):
         if ctx.require(crate.fn("parsers::parser_line::line_to_cmds") is not None, "R03-7", "R03-7|anchor",
                        "parsers::parser_line::line_to_cmds not found"):
             ispace.rule(ctx, crate, "R03-7", ["parsers::parser_line::line_to_cmds"])
+            splitter_state_rule(ctx, crate, "R03-9")
         if crate.kind == "bin":
             from .c02 import sigchld_rule
             sigchld_rule(ctx, crate, "R03-8")
@@ -316,3 +320,55 @@ def pipeline_status_rule(ctx, crate):
             v["rule"] = "R03-6"
             v["key"] = "R03-6" + k[5:]
             ctx.violations[v["key"]] = v
+
+
+def splitter_state_rule(ctx, crate, rule):
+    from .c02 import dom_facts
+    """the String state of line_to_cmds (open quote / pending operator) is cleared only under equality with the cursor"""
+    from ..mir import const_str
+    b = crate.fn("parsers::parser_line::line_to_cmds")
+    nb = None
+    for bb, t, c in b.calls():
+        if last_seg(c) == "next" and "Enumerate" in c:
+            nb = bb
+    if not ctx.require(nb is not None, rule, "%s|%s|loop" % (rule, b.path), "character loop not found", b.path):
+        return
+    loop = None
+    for h, blocks in b.loops().items():
+        if nb in blocks and (loop is None or len(blocks) > len(loop)):
+            loop = blocks
+    cexpr = mir.fld(1, mir.fld(0, ("downcast", "Some", strip_sites(b.call_expr(nb))), "0"))
+    # state variables: String locals that receive push(c) in the loop and are cleared in the loop
+    pushed = set()
+    for bb, t, c in b.calls():
+        if bb in loop and last_seg(c) == "push" and "String" in c:
+            a = b.call_args(bb)
+            if len(a) == 2 and strip_sites(a[1]) == cexpr:
+                pushed.add(mir.root_local_expr(a[0]))
+    n = 0
+    for bi, si, st in b.stmts():
+        if bi not in loop or st["k"] != "assign" or st["place"]["p"] or st["place"]["l"] not in pushed:
+            continue
+        l = st["place"]["l"]
+        e = b.expand_vars(strip_sites(b.rvalue_expr(st["rv"])))
+        empty = (e[0] == "call" and last_seg(e[1]) == "new" and "String" in e[1]) or const_str(e) == ""
+        if not empty:
+            continue
+        # only the quote/operator state: it is tested with is_empty() in branch conditions
+        tested = any(a[0] == "call" and last_seg(a[1]) == "is_empty" and mir.root_local_expr(a[2][0]) == l
+                     for x in loop for tgt, a, v in b.switch_edges(x))
+        if not tested:
+            continue
+        n += 1
+        good = False
+        for a, v in dom_facts(b, bi, within=loop):
+            a2 = strip_sites(a)
+            if a2[0] == "call" and last_seg(a2[1]) in ("eq", "ne") and len(a2[2]) == 2 and ((last_seg(a2[1]) == "eq") == bool(v)):
+                x, y = (b.expand_vars(mir.peel(z)) for z in a2[2])
+                for p, q in ((x, y), (y, x)):
+                    if mir.root_local_expr(p) == l and any(sub == cexpr for sub in mir.subexprs(q)):
+                        good = True
+        ctx.ob(rule, b.path, "clearing `%s` is guarded by `%s == <current character>`" % (b.names.get(l), b.names.get(l)), good,
+               key="%s|%s|state-cleared-unguarded|%s#%d" % (rule, b.path, b.names.get(l), n), where=b.loc(bi), crate=crate.kind,
+               detail=None if good else "a quoted region would end at any quote character: `echo \"it's; rm x\"` is split at the `;`")
+    ctx.floor(rule, crate, "state-clearing sites in line_to_cmds", n, 2)
